@@ -261,6 +261,40 @@ def run_seq(params, ch):
         s.finish()
 
 
+def run_nested(params, ch):
+    """Operations that open a stream while a stream of their own is still open (pull with a progress callback issues a stat; a callback that
+    itself queries the device; a suspended generator underneath): every OPEN carries an id that no live stream has."""
+    from .. import scen
+    cfg = scen.ops_cfg('two', 4096)
+    cfg['shell'] = dict(cfg['shell'])
+    cfg['shell'].update(CFG['shell'])
+    cfg['hold'] = CFG['hold']
+    s = Session(ch, cfg, twin=params['twin'])
+    try:
+        s.op(('connect',))
+        s.dev._local_id = params['start']
+        res = []
+        if params['held']:
+            res.append(s.op(('gen-start', 'hold0', {'decode': False})))
+        res.append(s.op(('pull', '/f', 'bytesio', {'cb': params['cb']})))
+        res.append(s.op(('push', ('bytes', scen.push_data(5000)), '/g', {'cb': params['cb'], 'mtime': 7})))
+        res.append(s.op(('stat', '/f')))
+        viol = []
+        mon, _ = monitor.check(s.env.events, completed=False)
+        viol += [{'msg': 'stream monitor %s: %s' % m} for m in mon]
+        viol += [{'msg': '%s: %s' % i} for i in s.env.issues]
+        ids = [p.a0 for w, p in s.env.events if w == 'H' and p.cmd == b'OPEN']
+        for i in ids:
+            if not 1 <= i <= 0xFFFFFFFF:
+                viol.append({'msg': 'OPEN with local id %d' % i})
+        if any(r[0] != 'ok' for r in res):
+            viol.append({'msg': 'nested operations gave %r' % ([r[:2] for r in res],)})
+        return {'outcome': (tuple(ids),), 'viol': viol, 'states': [tuple(ids)], 'trans': len(ids), 'nontrivial': tuple(sorted((k, str(v)) for k, v in params.items())),
+                'sample': dict(params, open_ids=ids)}
+    finally:
+        s.finish()
+
+
 def parts(tier):
     out = _parts(tier)
     if tier == 'thorough':
@@ -293,4 +327,7 @@ def _parts(tier):
                     what='asyncio tasks, every I/O completion order and device wire order', bound='complete'))
     out.append(Part('sequential-wrap', [{'start': st, 'twin': t} for st in STARTS + [2**32 - 5, 2**31 - 1] for t in ('sync', 'async')], run_seq,
                     what='6 opens in a row with all streams live, across the counter wrap', bound='%d histories' % (2 * (len(STARTS) + 2))))
+    sc = [{'start': st, 'twin': t, 'cb': cb, 'held': h} for st in STARTS for t in ('sync', 'async') for cb in ('count', 'reenter') for h in (False, True)]
+    out.append(Part('nested-opens', sc, run_nested, what='operations that open a stream while their own stream is open (pull with a callback -> stat; a callback that queries the device), with and without another live stream',
+                    bound='%d histories' % len(sc), min_outcomes=2))
     return out
